@@ -121,3 +121,79 @@ theorem shiftDown (m len i : Nat) (hm : m < 2 ^ 16) (hl : len < 16) :
     simp [hi, hb]
 
 end Asm
+
+namespace Asm
+open Kern
+
+theorem mask_mod (F : Nat → UInt8) : mask F 16 % W32 = mask F 16 :=
+  Nat.mod_eq_of_lt (Nat.lt_of_lt_of_le (mask_lt F 16) (by unfold W32; exact Nat.pow_le_pow_right (by omega) (by omega)))
+
+/-- `PMOVMSKB; BSFL` on a 16-lane comparison result is the block search -/
+theorem bsf_mask (F : Nat → UInt8) (p : UInt8 → Bool) (mem : Mem) (a : Nat)
+    (hF : ∀ j, decide (F j ≥ 0x80) = p (mem (a + j))) :
+    firstBit (mask F 16 % W32) 0 32 = blk p mem a 0 16 := by
+  rw [mask_mod]
+  have e : (32 : Nat) = 16 + 16 := rfl
+  rw [e, firstBit_append]
+  have h1 : firstBit (mask F 16) 0 16 = blk p mem a 0 16 := by
+    apply firstBit_eq_blk
+    intro i _ hi
+    rw [mask_testBit, ← hF i]
+    have : i < 16 := by omega
+    simp [this]
+  have h2 : firstBit (mask F 16) (0 + 16) 16 = none := by
+    apply firstBit_none
+    intro i hi _
+    rw [mask_testBit]
+    have : ¬ i < 16 := by omega
+    simp [this]
+  rw [h1, h2]
+  cases blk p mem a 0 16 <;> rfl
+
+/-- the end-of-page path: `SHLL len; SHRL $16; BSFL` finds the first match among the top `len` lanes, re-based to 0 -/
+theorem bsf_shifted (F : Nat → UInt8) (p : UInt8 → Bool) (mem : Mem) (a len : Nat) (hl : len < 16)
+    (hF : ∀ j, decide (F j ≥ 0x80) = p (mem (a + j))) :
+    firstBit ((((((mask F 16) % W32) <<< (len % 32)) % W32) >>> (16 % 32)) % W32) 0 32 =
+      (blk p mem a (16 - len) len).map (· - (16 - len)) := by
+  have hm := mask_lt F 16
+  generalize hw : (((((mask F 16) % W32) <<< (len % 32)) % W32) >>> (16 % 32)) = w
+  have hbit : ∀ i, w.testBit i = (decide (i < 16) && (mask F 16).testBit (i + 16 - len)) := by
+    intro i; rw [← hw]; exact shiftDown (mask F 16) len i hm hl
+  -- w < 2^16
+  have hwlt : w < 2 ^ 16 := by
+    apply Nat.lt_pow_two_of_testBit
+    intro i hi
+    rw [hbit i]
+    have : ¬ i < 16 := by omega
+    simp [this]
+  have hwm : w % W32 = w := Nat.mod_eq_of_lt (Nat.lt_of_lt_of_le hwlt (by unfold W32; exact Nat.pow_le_pow_right (by omega) (by omega)))
+  rw [hwm]
+  -- bits len … 31 of w are clear; bits 0 … len−1 are lanes 16−len … 15
+  have e : (32 : Nat) = len + (32 - len) := by omega
+  rw [e, firstBit_append]
+  have h2 : firstBit w (0 + len) (32 - len) = none := by
+    apply firstBit_none
+    intro i hi _
+    rw [hbit i, mask_testBit]
+    by_cases h16 : i < 16
+    · have : ¬ (i + 16 - len < 16) := by omega
+      simp [this]
+    · simp [h16]
+  have h1 : firstBit w 0 len = (firstBit (mask F 16) (0 + (16 - len)) len).map (· - (16 - len)) := by
+    apply firstBit_shift
+    intro i _ hi
+    rw [hbit i]
+    have : i < 16 := by omega
+    have e2 : i + 16 - len = i + (16 - len) := by omega
+    simp [this, e2]
+  have h3 : firstBit (mask F 16) (0 + (16 - len)) len = blk p mem a (16 - len) len := by
+    rw [Nat.zero_add]
+    apply firstBit_eq_blk
+    intro i hi1 hi2
+    rw [mask_testBit, ← hF i]
+    have : i < 16 := by omega
+    simp [this]
+  rw [h1, h2, h3]
+  cases blk p mem a (16 - len) len <;> rfl
+
+end Asm
